@@ -11,11 +11,11 @@ res=$(grep RESULT /tmp/wt/confirm_${ID}_$M.log | tail -1)
 head=$(git -C /tmp/wt/$ID rev-parse --short HEAD)
 need=$(grep -i -m1 -A2 "trigger\|manifest" $src/mut$M.md | tr '\n' ' ' | cut -c1-300)
 python3 - "$ID" "$N" "$res" "$DET" "$BY" "$head" "$need" > $dst/meta.json <<'PY'
-import json,sys
+import json,sys,os
 ID,N,res,det,by,head,need=sys.argv[1:8]
 print(json.dumps({
  "property": ID, "seed": f"{ID}-{N}",
- "origin": f"fresh sub-agent (round 3) given only the property text and its own git worktree of /repo at commit {head}",
+ "origin": "fresh sub-agent (round " + os.environ.get("ROUND","3") + f") given only the property text and its own git worktree of /repo at commit {head}",
  "needs_to_manifest": need,
  "confirmed_by_me": "tools/confirm_seed.sh in the scratch worktree: (a) go build ./..., (b) go test ./pkg/... ./internal/... with the change, (c) demo fails with the change, (d) demo passes without it",
  "confirm_result": res, "confirm_note": "",
